@@ -801,6 +801,8 @@ package biscuit
 //@ loop 2 invariant len(v.checks) == len(pbPolicies.Checks) && fresh(arr(v.checks)) && v.symbols != nil
 //@ loop 3 modifies elems(v.policies)
 //@ loop 3 invariant len(v.policies) == len(pbPolicies.Policies) && fresh(arr(v.policies)) && v.symbols != nil
+//@ loop 3 invariant kinds: forall k int :: { v.policies[k] } 0 <= k && k < #i ==> (v.policies[k].Kind == PolicyKindAllow && *pbPolicies.Policies[k].Kind == pb.Policy_Allow) || (v.policies[k].Kind == PolicyKindDeny && *pbPolicies.Policies[k].Kind == pb.Policy_Deny)
 //@ loop 4 modifies elems(policy.Queries)
 //@ loop 4 invariant len(policy.Queries) == len(pbPolicy.Queries) && fresh(arr(policy.Queries)) && v.symbols != nil
 //@ ensures counts[C18]: err == nil ==> len(v.checks) == len(pbPolicies.Checks) && len(v.policies) == len(pbPolicies.Policies)
+//@ ensures kinds[C18]: err == nil ==> (forall k int :: { v.policies[k] } 0 <= k && k < len(v.policies) ==> (v.policies[k].Kind == PolicyKindAllow && *pbPolicies.Policies[k].Kind == pb.Policy_Allow) || (v.policies[k].Kind == PolicyKindDeny && *pbPolicies.Policies[k].Kind == pb.Policy_Deny))
